@@ -15,6 +15,9 @@
  *                                                  -> ok <e_s> <e_ns> <l_s> <l_ns> <status>
  *                                                   | err <kind> <errno> <detail|->        (error of clockbound_now)
  *                                                   | openerr <kind> <errno> <detail|->    (error of clockbound_open)
+ *   sopen <path>                                   -> ok | err <kind> <errno> <detail|->   (the context stays open:)
+ *   snow <real_s> <real_ns> <mono_s> <mono_ns>     -> <clock ids read, in order> : ok … | err …    (clockbound_now on it)
+ *   sclose                                         -> ok | closeerr …
  *   abi                                            -> abi <sizeof, (offset size)* of clockbound_err> ; <same of clockbound_now_result> ; <err kinds> ; <status values>
  *   ping                                           -> pong <clock reads intercepted so far>
  */
@@ -32,11 +35,17 @@
 static int virt_on = 0;
 static struct timespec v_real, v_mono;
 static long reads_real = 0, reads_mono = 0, reads_other = 0;
+/* order of the clock reads of the current request (clock ids), for the session requests */
+static int read_log[64]; static int read_n = 0;
+static void log_read(clockid_t clk) { if (read_n < 64) read_log[read_n++] = (int)clk; }
+static clockbound_ctx *session_ctx = NULL;
 
 int clock_gettime(clockid_t clk, struct timespec *ts)
 {
+	if (virt_on) log_read(clk);
 	if (virt_on && clk == CLOCK_REALTIME) { *ts = v_real; reads_real++; return 0; }
-	if (virt_on && (clk == CLOCK_MONOTONIC_COARSE || clk == CLOCK_MONOTONIC)) { *ts = v_mono; reads_mono++; return 0; }
+	if (virt_on && (clk == CLOCK_MONOTONIC_COARSE || (virt_on == 1 && clk == CLOCK_MONOTONIC))) { *ts = v_mono; reads_mono++; return 0; }
+	if (virt_on == 2) { ts->tv_sec = 0; ts->tv_nsec = 0; reads_other++; return 0; }   /* session: any other clock reads 0 */
 	reads_other++;
 	return (int)syscall(SYS_clock_gettime, (long)clk, ts);
 }
@@ -61,6 +70,7 @@ static const char *kind_name(clockbound_err_kind k, char *buf, size_t n)
 	case CLOCKBOUND_ERR_SEGMENT_NOT_INITIALIZED: return "notinit";
 	case CLOCKBOUND_ERR_SEGMENT_MALFORMED: return "malformed";
 	case CLOCKBOUND_ERR_CAUSALITY_BREACH: return "causality";
+	default: break;   /* an enumerator this client does not know: printed by number */
 	}
 	snprintf(buf, n, "kind%d", (int)k);
 	return buf;
@@ -121,6 +131,28 @@ int main(void)
 				    (long long)res.latest.tv_sec, (long long)res.latest.tv_nsec, (int)res.clock_status);
 			const clockbound_err *ce = clockbound_close(ctx);
 			if (ce != NULL) print_err("closeerr", ce);
+		} else if (sscanf(line, "sopen %4095s", path) == 1) {
+			clockbound_err err; memset(&err, 0x5a, sizeof err);
+			if (session_ctx != NULL) { clockbound_close(session_ctx); session_ctx = NULL; }
+			session_ctx = clockbound_open(path, &err);
+			if (session_ctx == NULL) print_err("err", &err); else printf("ok\n");
+		} else if (sscanf(line, "snow %lld %lld %lld %lld", &rs, &rn, &ms, &mn) == 4) {
+			if (session_ctx == NULL) { printf("closed\n"); continue; }
+			clockbound_now_result res; memset(&res, 0x5a, sizeof res);
+			v_real.tv_sec = rs; v_real.tv_nsec = rn; v_mono.tv_sec = ms; v_mono.tv_nsec = mn;
+			read_n = 0;
+			virt_on = 2;
+			const clockbound_err *e = clockbound_now(session_ctx, &res);
+			virt_on = 0;
+			for (int k = 0; k < read_n; k++) printf("%d ", read_log[k]);
+			printf(": ");
+			if (e != NULL) print_err("err", e);
+			else printf("ok %lld %lld %lld %lld %d\n", (long long)res.earliest.tv_sec, (long long)res.earliest.tv_nsec,
+				    (long long)res.latest.tv_sec, (long long)res.latest.tv_nsec, (int)res.clock_status);
+		} else if (strncmp(line, "sclose", 6) == 0) {
+			if (session_ctx == NULL) { printf("ok\n"); continue; }
+			const clockbound_err *ce = clockbound_close(session_ctx); session_ctx = NULL;
+			if (ce != NULL) print_err("closeerr", ce); else printf("ok\n");
 		} else if (strncmp(line, "abi", 3) == 0) {
 			/* sizeof, then (offset, size) of each member; enumerator values */
 			printf("abi %zu %zu %zu %zu %zu %zu %zu ; %zu %zu %zu %zu %zu %zu %zu ; %d %d %d %d %d ; %d %d %d\n",
